@@ -15,11 +15,12 @@ C01 — composition of the jump-lowering passes and the chain into functionalisa
    `topContB (lowerBreak b) = topContB b || mayBrkB b`; the EXTRA_LOOP_TESTs that break lowering introduces
    are handled by the continue / return theorems themselves (they allow any clean extra test; only the break
    theorem needs `noExtraB`, of the source).
-2. `jump_passes_output_jumpfree`: the composed output contains no `break`, no `continue`, and `return` only as
-   its last top-level statement; for an S0 source it lies in the domain of the functionalisation
-   (`Func.annotB ann 0` succeeds for EVERY annotation `ann`).
-3. `C01_jumps_then_functionalise_partial`: for an S0 source, the functionalised lowered program under the
-   native target semantics `Func.execNB` has the same function result and the same log as the source.
+2. `jump_passes_output_jumpfree`: for EVERY source the composed output contains no `break`, no `continue`,
+   `return` only as its last top-level statement, satisfies `Func.noJumpB`, and lies in the domain of the
+   functionalisation (`Func.annotB ann 0` succeeds for EVERY annotation `ann`; try/with pass through).
+3. `C01_jumps_then_functionalise_partial`: for every source satisfying `JumpHyp` (S1: try/finally/with
+   allowed), the functionalised lowered program under the native target semantics `Func.execNB` has the same
+   function result and the same log as the source.  `…_S0`: the earlier S0 statements, as corollaries.
 
 Modelling assumption carried over from the per-pass part: the `try: … except: <flag reset>; raise` wrapper that
 the real return lowering puts around `do_return = True; retval_ = e` is outside `Malt.Sem` (no catch-all
@@ -78,28 +79,40 @@ theorem jump_passes_correct_partial (X : Ext) {genB genC : Gen} {dr rv : Name}
       fnResult o' = fnResult o ∧ Agree (GenAll genB genC dr rv) σ₁ σ₁' :=
   jump_passes_correct X gens body hyp n σ o σ₁ h
 
-/-- **Shape of the composed output**: no `break`, no `continue`, `return` only as the last top-level statement;
-for a source without try/with, every annotation turns it into a program of the functionalisation fragment. -/
+/-- Bridge between the occurrence predicates of the jump part and the functionalisation's domain predicate. -/
+theorem noJump_of_no_break_continue (b : Block) (hb : hasBrkB b = false) (hc : hasContB b = false) :
+    Func.noJumpB b = true :=
+  noJumpB_of_has b hb hc
+
+/-- **Shape of the composed output**, for EVERY source: no `break`, no `continue`, `return` only as the last
+top-level statement; every annotation turns it into a program of the functionalisation fragment (which now
+passes `with` and `try` through). -/
 theorem jump_passes_output_jumpfree (genB genC : Gen) (dr rv : Name) (body : Block) :
     hasBrkB (jumpPasses genB genC dr rv body) = false ∧
     hasContB (jumpPasses genB genC dr rv body) = false ∧
     ((∃ init, jumpPasses genB genC dr rv body = init ++ [.ret (some (.var rv))] ∧ hasRetB init = false) ∨
       hasRetB (jumpPasses genB genC dr rv body) = false) ∧
-    (inS0B body = true → ∀ ann : Func.Ann, ∃ q, Func.annotB ann 0 (jumpPasses genB genC dr rv body) = some q) := by
-  refine ⟨jumpPasses_noBrk body, jumpPasses_noCont body, lowerReturn_onlyLastRet dr rv _, ?_⟩
-  intro hs ann
-  exact annotB_total _ ann 0 (jumpPasses_noBrk body) (jumpPasses_noCont body) (jumpPasses_inS0 body hs)
+    Func.noJumpB (jumpPasses genB genC dr rv body) = true ∧
+    (∀ ann : Func.Ann, ∃ q, Func.annotB ann 0 (jumpPasses genB genC dr rv body) = some q) :=
+  ⟨jumpPasses_noBrk body, jumpPasses_noCont body, lowerReturn_onlyLastRet dr rv _,
+    noJumpB_of_has _ (jumpPasses_noBrk body) (jumpPasses_noCont body),
+    fun ann => jumpPasses_annotatable genB genC dr rv body ann⟩
 
-/-- **Jump lowering followed by functionalisation** (S0 sources): the source body and the functionalised
-lowered program (native target semantics) give the same function result and the same effect log.
-`q` is the lowered program annotated by `ann` (it exists for every `ann`, `jump_passes_output_jumpfree`);
-`FuncHyp D q O` are the hypotheses of `Func.control_flow_correct` on that annotation (liveness consistency,
-`declared`/`undefined` inclusions, definedness) — checked on the real annotations by the C01 harness.
-(`_hS0` is not used by the proof: `hq` can only hold for sources without try/with, since `annotB` rejects both and
-the lowerings keep them.)
+/-- The annotated lowered program of the next theorem always exists. -/
+theorem C01_lowered_program_annotatable (genB genC : Gen) (dr rv : Name) (body : Block) (ann : Func.Ann) :
+    ∃ q, Func.annotB ann 0 (jumpPasses genB genC dr rv body) = some q :=
+  jumpPasses_annotatable genB genC dr rv body ann
+
+/-- **Jump lowering followed by functionalisation** (S1 sources: try/finally/with allowed under `JumpHyp`):
+the source body and the functionalised lowered program (native target semantics) give the same function
+result and the same effect log.
+`q` is the lowered program annotated by `ann` (it exists for every `ann`: `C01_lowered_program_annotatable`);
+`FuncHyp D q O` are the hypotheses of `Func.control_flow_correct` on that annotation (liveness consistency in
+the exception-context form `LiveB ExcCtx.top`, `declared`/`undefined` inclusions, definedness, `return` only at
+top level) — checked on the real annotations by the C01 harness.
 The return lowering's `try/except: raise` wrapper is not part of `Malt.Sem` (see the header). -/
 theorem C01_jumps_then_functionalise_partial (X : Ext) {genB genC : Gen} {dr rv : Name}
-    (gens : JumpGens genB genC dr rv) (body : Block) (hyp : JumpHyp body = true) (_hS0 : inS0B body = true)
+    (gens : JumpGens genB genC dr rv) (body : Block) (hyp : JumpHyp body = true)
     (ann : Func.Ann) (q : Func.ABlock) (hq : Func.annotB ann 0 (jumpPasses genB genC dr rv body) = some q)
     (D O : List Name) (fh : Func.FuncHyp D q O)
     (σ : St) (σ' : Func.TSt) (hag : Func.Agree (Func.blockIn q O) σ σ') (hb : Func.BoundSub σ D)
@@ -111,10 +124,26 @@ theorem C01_jumps_then_functionalise_partial (X : Ext) {genB genC : Gen} {dr rv 
     Func.control_flow_correct_sem X ann _ q hq D O fh σ σ' hag hb m3 o' σc hx3
   exact ⟨t, ht, m, σ₁', o', hxn, hres, by rw [hlog]; exact hagc.1.symm⟩
 
-/-- The annotated lowered program of the previous theorem always exists (S0 sources). -/
-theorem C01_lowered_program_annotatable (genB genC : Gen) (dr rv : Name) (body : Block) (hS0 : inS0B body = true)
-    (ann : Func.Ann) : ∃ q, Func.annotB ann 0 (jumpPasses genB genC dr rv body) = some q :=
-  (jump_passes_output_jumpfree genB genC dr rv body).2.2.2 hS0 ann
+/-- The S0 instances (statements of the first version of this file). -/
+theorem C01_jumps_then_functionalise_partial_S0 (X : Ext) {genB genC : Gen} {dr rv : Name}
+    (gens : JumpGens genB genC dr rv) (body : Block) (hyp : JumpHyp body = true) (_hS0 : inS0B body = true)
+    (ann : Func.Ann) (q : Func.ABlock) (hq : Func.annotB ann 0 (jumpPasses genB genC dr rv body) = some q)
+    (D O : List Name) (fh : Func.FuncHyp D q O)
+    (σ : St) (σ' : Func.TSt) (hag : Func.Agree (Func.blockIn q O) σ σ') (hb : Func.BoundSub σ D)
+    (n : Nat) (o : Out) (σ₁ : St) (h : execB X n body σ = some (o, σ₁)) :
+    ∃ t, Func.func ann (jumpPasses genB genC dr rv body) = some t ∧
+      ∃ m σ₁' o', Func.execNB X m t σ' = some (o', σ₁') ∧ fnResult o' = fnResult o ∧ σ₁'.log = σ₁.log :=
+  C01_jumps_then_functionalise_partial X gens body hyp ann q hq D O fh σ σ' hag hb n o σ₁ h
+
+theorem C01_lowered_program_annotatable_S0 (genB genC : Gen) (dr rv : Name) (body : Block)
+    (_hS0 : inS0B body = true) (ann : Func.Ann) :
+    ∃ q, Func.annotB ann 0 (jumpPasses genB genC dr rv body) = some q :=
+  C01_lowered_program_annotatable genB genC dr rv body ann
+
+/-- An S0 source stays in S0 (no try/with is introduced). -/
+theorem jump_passes_preserve_S0 (genB genC : Gen) (dr rv : Name) (body : Block) (h : inS0B body = true) :
+    inS0B (jumpPasses genB genC dr rv body) = true :=
+  jumpPasses_inS0 body h
 
 /-! ### the hypotheses are satisfiable: concrete non-trivial sources -/
 
@@ -156,6 +185,23 @@ example (X : Ext) (n : Nat) (σ : St) (o : Out) (σ₁ : St) (h : execB X n exAl
     ∃ m σ₁' o', execB X m (jumpPasses (stdGen 'b') (stdGen 'c') stdDr stdRv exAll) σ = some (o', σ₁') ∧
       fnResult o' = fnResult o ∧ Agree (GenAll (stdGen 'b') (stdGen 'c') stdDr stdRv) σ₁ σ₁' :=
   jump_passes_correct_partial X stdJumpGens exAll (by decide) n σ o σ₁ h
+
+/-- The chain instantiated on the S1 source `exAllTry` (try/except/finally + with) with the standard generators:
+every annotation of its lowered form that satisfies `FuncHyp` gives a functionalised program with the same
+function result and log. -/
+example (X : Ext) (ann : Func.Ann) (q : Func.ABlock)
+    (hq : Func.annotB ann 0 (jumpPasses (stdGen 'b') (stdGen 'c') stdDr stdRv exAllTry) = some q)
+    (D O : List Name) (fh : Func.FuncHyp D q O)
+    (σ : St) (σ' : Func.TSt) (hag : Func.Agree (Func.blockIn q O) σ σ') (hb : Func.BoundSub σ D)
+    (n : Nat) (o : Out) (σ₁ : St) (h : execB X n exAllTry σ = some (o, σ₁)) :
+    ∃ t, Func.func ann (jumpPasses (stdGen 'b') (stdGen 'c') stdDr stdRv exAllTry) = some t ∧
+      ∃ m σ₁' o', Func.execNB X m t σ' = some (o', σ₁') ∧ fnResult o' = fnResult o ∧ σ₁'.log = σ₁.log :=
+  C01_jumps_then_functionalise_partial X stdJumpGens exAllTry (by decide) ann q hq D O fh σ σ' hag hb n o σ₁ h
+
+/-- … and such an annotated program exists for every annotation. -/
+example (ann : Func.Ann) :
+    ∃ q, Func.annotB ann 0 (jumpPasses (stdGen 'b') (stdGen 'c') stdDr stdRv exAllTry) = some q :=
+  C01_lowered_program_annotatable _ _ _ _ exAllTry ann
 
 /-- A source outside `JumpHyp` (the counterexample of the per-pass part): the composition is wrong on it. -/
 example : JumpHyp Malt.Props.C01Jumps.cexRet = false := by decide
